@@ -2,3 +2,5 @@ pub mod common;
 pub mod server_tcp;
 pub mod client;
 pub mod rtu;
+pub mod sessions;
+pub mod robust;
